@@ -268,7 +268,7 @@ def oracle_C11(case):
 
 def _c11_scripts(tier, seed):
     rnd = random.Random(seed * 7919 + 11)
-    n = 420 if tier == 'quick' else 2500
+    n = 420 if tier == 'quick' else 2000
     for lx in _C11_FIXED:
         yield tuple(lx)
     for k in range(n):
